@@ -207,4 +207,65 @@ func TestC16PoolFirstUse(t *testing.T) {
 		}
 	}
 	hx.Class("fresh-backends-dropped-after-leaving")
+
+	// ---- 5. a backend leaves the table for a moment that contains a clean-up pass and comes
+	// back before the grace period of that pass (grpcshutdowntimeout, 2 s) is over; a stream
+	// opened after its return lives across the end of the grace period
+	one := fmt.Sprintf("route add flap /fresh.S2/ grpc://%s opts \"proto=grpc\"\n", bs[2].ln.Addr())
+	keep := "route add keep /pool.Keep/ grpc://" + h.backends[0].ln.Addr().String() + " opts \"proto=grpc\"\n"
+	setText(keep + one)
+	if _, err := call("/fresh.S2/M"); err != nil {
+		t.Fatalf("call before the flap failed: %v", err)
+	}
+	const period = 5 * time.Second
+	k := time.Since(h.poolBorn)/period + 1
+	tick := h.poolBorn.Add(k * period)
+	if time.Until(tick) < 1200*time.Millisecond {
+		tick = tick.Add(period)
+	}
+	time.Sleep(time.Until(tick.Add(-700 * time.Millisecond)))
+	setText(keep) // leaves
+	time.Sleep(time.Until(tick.Add(600 * time.Millisecond)))
+	setText(keep + one) // returns
+	id2 := fmt.Sprintf("flap-%d", atomic.AddInt64(&h.seq, 1))
+	h.mu.Lock()
+	h.scripts[id2] = callScript{responses: [][]byte{{0x08, 0x01}}}
+	h.mu.Unlock()
+	ctx2, cancel2 := context.WithTimeout(metadata.NewOutgoingContext(context.Background(), metadata.Pairs("x-call-id", id2)), 30*time.Second)
+	defer cancel2()
+	st2, err := h.conn.NewStream(ctx2, &grpc.StreamDesc{ClientStreams: true, ServerStreams: true}, "/fresh.S2/Stream")
+	if err != nil {
+		t.Fatalf("opening a stream after the backend returned: %v", err)
+	}
+	if err := st2.SendMsg(&m1); err != nil {
+		t.Fatalf("first message after the backend returned: %v", err)
+	}
+	time.Sleep(time.Until(tick.Add(3200 * time.Millisecond)))
+	flapCtx := fmt.Sprintf("the backend left the table %v before a clean-up pass of the pool and returned %v after it; the stream was opened right after its return and was %v old", 700*time.Millisecond, 600*time.Millisecond, 2600*time.Millisecond)
+	if err := st2.SendMsg(&m2); err != nil {
+		t.Fatalf("a stream to a backend that is in the table broke: %v\n%s", err, flapCtx)
+	}
+	st2.CloseSend()
+	n2 := 0
+	for {
+		var m []byte
+		if err := st2.RecvMsg(&m); err != nil {
+			if err != io.EOF {
+				t.Fatalf("a stream to a backend that is in the table ended with %v\n%s", err, flapCtx)
+			}
+			break
+		}
+		n2++
+	}
+	h.mu.Lock()
+	rec2 := h.records[id2]
+	delete(h.records, id2)
+	delete(h.scripts, id2)
+	h.mu.Unlock()
+	if rec2 == nil || len(rec2.messages) != 2 || n2 != 1 {
+		t.Fatalf("stream across a backend flap: backend received %v, caller received %d messages\n%s", rec2, n2, flapCtx)
+	}
+	hx.Eval()
+	hx.Class("stream-after-backend-flap-across-a-clean-up-pass")
+	hx.NonTrivial("stream-after-backend-flap")
 }
